@@ -359,7 +359,19 @@ func dotEdits(r interface{ Intn(int) int }, src []byte, names map[string]string,
 			edits = append(edits, gen.Edit{Off: s.after, Text: "\n", Kind: "newline-after-dot"})
 		case x < 6 && len(sites) > 0:
 			s := sites[r.Intn(len(sites))]
-			edits = append(edits, gen.Edit{Off: s.after, Text: " //" + id + "\n", Kind: "line-comment-after-dot"})
+			switch r.Intn(5) {
+			case 0:
+				edits = append(edits, gen.Edit{Off: s.after, Text: " //" + id + "\n", Kind: "line-comment-after-dot"})
+			case 1:
+				// a line break after the dot and a comment on its own line before the selector
+				edits = append(edits, gen.Edit{Off: s.after, Text: "\n//" + id + "\n", Kind: "newline+own-line-comment-after-dot"})
+			case 2:
+				edits = append(edits, gen.Edit{Off: s.after, Text: "\n/*" + id + "*/ ", Kind: "newline+block-after-dot"})
+			case 3:
+				edits = append(edits, gen.Edit{Off: s.after, Text: " //" + id + "a\n\n//" + id + "b\n", Kind: "line-comment+blank+comment-after-dot"})
+			case 4:
+				edits = append(edits, gen.Edit{Off: s.before, Text: " /*" + id + "a*/ ", Kind: "block-before-dot"}, gen.Edit{Off: s.after, Text: "\n/*" + id + "b*/ ", Kind: "newline+block-after-dot"})
+			}
 		case len(importToks) > 0:
 			o := importToks[r.Intn(len(importToks))]
 			edits = append(edits, gen.Edit{Off: o, Text: "/*" + id + "*/ ", Kind: "block-before-import-path"})
